@@ -10,7 +10,7 @@ T = {
  "C01": ("reference-model monitor: every go-to-definition answer (library entry point and real server) at every column of every usage token in generated workspaces is compared with an independent model of pytest's lookup; repeated after every conftest tab was closed, and for a document opened with a text that differs from the scanned file",
          "reference-model runtime monitor (differential vs Python model of pytest lookup)",
          "the Python model of pytest's lookup (vlib/pymodel.py) is correct for the generated grammar; the generators reach the layouts that matter; CPython ast"),
- "C02": ("reference-model monitor over override chains: every column of every overriding def line, definition/references/hierarchy answers vs model with outward exclusion; per-class overrides in one file; repeated after the chain's files were closed and re-opened",
+ "C02": ("reference-model monitor over override chains: every column of every overriding def line, definition/references/hierarchy answers vs model with outward exclusion; per-class overrides in one file; repeated after the chain's files were closed and re-opened; two links of one chain in one file; a new module opened through a symlinked workspace root before it exists",
          "reference-model runtime monitor (override chains x cursor columns)",
          "model of outward resolution; chains up to length 4 over the generated placements"),
  "C03": ("reference-model monitor: the index records after analyze_file are compared field by field with an extraction done by CPython's ast/tokenize over generated sources (incl. same-file redefinitions and re-sent texts)",
@@ -19,13 +19,13 @@ T = {
  "C04": ("consistency monitor: for every (definition, usage) pair of generated workspaces and edit histories, refs/goto equivalence, reverse-index mirror invariant at every quiescent point, and equality of code-lens / incoming-calls / CLI counts; the two usage indexes under seeded schedules of concurrent analyses",
          "cross-path consistency monitor + invariant hook on the reverse usage index",
          "observations are the server's own answers; no model needed"),
- "C05": ("cross-feature monitor on the real server: identities decoded from definition/hover/implementation/prepareCallHierarchy/outgoingCalls/inlayHint/completion at the same position must coincide (unique docstring and return-type tokens per definition); repeated after import-only edits and after closing every conftest; per-file view vs navigation after a concurrent edit under seeded schedules",
+ "C05": ("cross-feature monitor on the real server: identities decoded from definition/hover/implementation/prepareCallHierarchy/outgoingCalls/inlayHint/completion at the same position must coincide (unique docstring and return-type tokens per definition); repeated after import-only edits and after closing every conftest; per-file view vs navigation after a concurrent edit under seeded schedules; buffer-only layouts (conftest in the file-system root, never-saved conftest closed again)",
          "cross-feature runtime monitor with unique-value identities",
          "unique identity tokens make decoded identities unambiguous"),
  "C06": ("twin execution at every prefix of generated edit histories: history database vs fresh database on the latest valid contents (ordered raw maps + all queries), vs a cold database (raw maps as multisets), and the same through the real server (incl. two versions sent back to back)",
          "twin-execution runtime monitor (history vs fresh index)",
          "same code on both sides, so common-mode defects are invisible; registration order is aligned by construction"),
- "C07": ("twin execution: long-lived database with interleaved queries, closes and cache eviction vs a cold twin that received the same analyses only; every query compared at every step; open/query before the scan; queries concurrent with analyses under seeded schedules; every request kind on the real server before/after closing documents and opening 2000+ others",
+ "C07": ("twin execution: long-lived database with interleaved queries, closes and cache eviction vs a cold twin that received the same analyses only; every query compared at every step; open/query before the scan; queries concurrent with analyses under seeded schedules; every request kind on the real server before/after closing documents and opening 2000+ others; directed import layouts with cut-short nested walks asked in every query order vs a cold database asked one question",
          "twin-execution runtime monitor (warm vs cold caches)",
          "identical analysis sequences give identical registration order, so differences are caused by cached state"),
  "C08": ("twin execution across analysis orders, worker counts and processes: permutations of per-file analysis order on fresh databases, real scans with different RAYON_NUM_THREADS and delay injection, CLI runs; snapshots compared; registration orders across the plugin / third-party tiers; workspace symbols of a 200+ fixture workspace across server processes; parallel registration of the same names under injected delays",
@@ -40,7 +40,7 @@ T = {
  "C11": ("trace checker over hostile workloads: one response per request and a clean shutdown on the real server, catch_unwind around library entry points, CLI exit status, scan isolation; legal-but-unusual protocol sequences; more files than the text cache holds; dev-build pass; ASan / valgrind on reduced workloads (thorough)",
          "runtime trace checker over hostile inputs + sanitizers",
          "hostile generators cover the byte-slicing sites; sanitizers exercise dependencies as driven by the repo"),
- "C12": ("lock monitor in the instrumented DashMap over all workloads: conflicting same-map re-entrancy (any shard), conflicting lock-order cycles, scheduler no-runnable-thread, classified watchdogs; cyclic inputs (incl. import cycles among plugin modules) bounded by watchdogs; requests during a gated scan and its tail; notification bursts followed by requests",
+ "C12": ("lock monitor in the instrumented DashMap over all workloads: conflicting same-map re-entrancy (any shard), conflicting lock-order cycles, scheduler no-runnable-thread, classified watchdogs; cyclic inputs (incl. import cycles among plugin modules) bounded by watchdogs; requests during a gated scan and its tail; notification bursts followed by requests; workspaces and documents named through symbolic links (non-canonical paths, 2 shards)",
          "lock-order / re-entrancy runtime monitor + watchdogs on cyclic inputs",
          "std Mutex/tokio locks are covered by watchdogs only"),
  "C13": ("reference-model monitor: independent directory walk vs the files indexed by the real scan, relocation twins (same tree under differently named roots), broken-file isolation (incl. unreadable imported modules); non-canonical root spellings",
